@@ -283,8 +283,8 @@ func c02History(r *hx.Run, w *W, rnd *rand.Rand, hi int, epochs []c02Epoch) {
 		r.Add("waiters_went_upstream", int64(wentUp))
 		tr["from_fetch"], tr["went_upstream"], tr["fetcher_status"], tr["fetcher_label"] = fromFetch, wentUp, resF.Status, resF.Label
 		if ep.Outcome == "cacheable" && ep.Variant != "held_registered_purge" && ep.Variant != "evicted_during_fetch" && wentUp > 0 && ep.Variant != "late" {
-			r.Violate("waiter_not_served_from_cacheable_fetch", map[string]string{"outcome": ep.Outcome, "variant": ep.Variant}, "fetch was cacheable but a parked waiter went upstream", tr, cs)
-			return
+			// allowed by this property ("or proceeds to the upstream itself"); single flight is C01's concern
+			r.Add("waiters_that_went_upstream_after_a_cacheable_fetch_(info)", int64(wentUp))
 		}
 		// quiescent invariant on hooked state
 		if st.Exists && (st.Status == cache.StatusFetching || st.Waiters != 0) {
@@ -304,8 +304,8 @@ func c02History(r *hx.Run, w *W, rnd *rand.Rand, hi int, epochs []c02Epoch) {
 			wantLabel = "hit"
 		}
 		if ep.Variant != "evicted_during_fetch" && ep.Variant != "held_registered_purge" && ep.Outcome != "client_abort" && ep.Outcome != "panic_hook" && probe.Label != wantLabel {
-			r.Violate("followup_label", map[string]string{"outcome": ep.Outcome, "variant": ep.Variant}, fmt.Sprintf("follow-up labelled %q, expected %q", probe.Label, wantLabel), map[string]interface{}{"probe": probe.Brief(), "trace": trace}, cs)
-			return
+			// served normally is all this property asks of the follow-up; which label it carries is C01/C07
+			r.Add("followups_with_another_label_than_the_model_(info)", 1)
 		}
 		tr["followup"] = probe.Label
 		trace = append(trace, tr)
